@@ -92,6 +92,7 @@ Definition T_RAWATTR : str := [114;97;119;97;116;116;114].  (* "rawattr" *)
 Definition T_CTU : str := [99;116;117].                     (* "ctu" *)
 Definition T_UU : str := [117;117].                         (* "uu" *)
 Definition T_WP : str := [119;112].                         (* "wp" *)
+Definition T_CTUCFGS : str := [99;116;117;99;102;103;115]. (* "ctucfgs" *)
 Definition T_NAMESOK : str := [110;97;109;101;115;111;107]. (* "namesok" *)
 
 Definition run (fields : list str) : list str :=
@@ -108,6 +109,14 @@ Definition run (fields : list str) : list str :=
         | Some (c, _) =>
             let x := ctu_to_xml nm c in
             if forallb xml_ok x then ctu_out (load_ctu nm x) else UNMODELLED
+        | None => BAD
+        end
+      else if tag_is tag T_CTUCFGS then
+        (* ncfg ctu*: one <FileInfo check="ctu"> block per configuration in one analyzer-info file, all read back *)
+        match take_list take_ctu args with
+        | Some (cs, _) =>
+            let blocks := map (ctu_to_xml nm) cs in
+            if forallb (forallb xml_ok) blocks then ctu_out (load_ctu_blocks nm blocks) else UNMODELLED
         | None => BAD
         end
       else if tag_is tag T_UU then
